@@ -99,9 +99,23 @@ def program(n):
                     {"op": "pad", "to": n}]}
 
 
+def label_of(circuit):
+    """Labels longer than 64 bytes, so that a cache keyed by less than the whole label
+    (a prefix, a bounded inline buffer, a fingerprint of the ends) is observable."""
+    return "c18-%s-%s" % (circuit, "".join(chr(97 + (k * 7) % 26) for k in range(64)))
+
+
+def label_primers(lab):
+    """Labels a cache could confuse with `lab`: an extension, a prefix, one byte changed in
+    the middle / past the 64th byte, a trailing NUL, the same first 64 bytes."""
+    mid = len(lab) // 2
+    flip = lambda k: lab[:k] + ("#" if lab[k] != "#" else "%") + lab[k + 1:]
+    return [lab + "+ext", lab[:-1], flip(mid), flip(12), flip(len(lab) - 3), lab + "\u0000", lab[:64] + "/other-tail"]
+
+
 def scen_json(cfg, i):
     n, cap = SIZES[cfg["circuit"]]
-    return {"id": "s%d" % i, "program": program(n), "cap": cap, "label": "c18-" + cfg["circuit"],
+    return {"id": "s%d" % i, "program": program(n), "cap": cap, "label": label_of(cfg["circuit"]),
             "pool": cfg["pool"], "runs": cfg["runs"], "concurrent": cfg["concurrent"], "seeds": SEEDS}
 
 
@@ -115,7 +129,7 @@ def execute(cfgs):
     # with a history the fresh processes do not have
     primers = []
     for circuit in sorted(set(c["circuit"] for _, c in batch)):
-        for lab in ("c18-" + circuit + "+ext", ("c18-" + circuit)[:-1]):
+        for lab in label_primers(label_of(circuit)):
             n, cap = SIZES["small"]
             primers.append({"id": "primer", "program": program(n), "cap": cap, "label": lab, "pool": 1,
                             "runs": 1, "concurrent": 0, "seeds": SEEDS[:1]})
